@@ -15,6 +15,8 @@ META = {
             "of XRef streams incl. the self entry, startxref target, Size > every object number). The recovered view must equal the saved document.",
     "note": "Trusted: TLC, the transcription of ISO 32000-1 7.2-7.5 in Syntax.tla/FileStructure.tla, the harness projection. Inputs are sampled. "
             "Incremental saves are validated by the C07 check (same reader).",
+    "bins": ['c01'],
+    "modules": ['Trace_Lifecycle.tla'],
     "design_ref": "DESIGN.md section 4 C03",
 }
 
